@@ -66,10 +66,10 @@ def gen_cases(rng, tier):
         model["api_density_lookup"] = "on_demand"     # functions made on lookup: a new callable object per access
       elif i % 3 == 2 and model.get("api_containers") != "amend_after_write":
         model["api_refit"] = 1                        # the state behind the functions changes between two writes
-      if i % 4:
+      if i % 5:
         # functions that return 0-d numpy arrays: fresh ones, integer-typed ones where the value is whole, memoised ones
-        # (the same array object again for the same separation - it must come back unchanged)
-        model["api_results"] = [None, "numpy0d", "numpy0d_int", "numpy0d_cached"][i % 4]
+        # (the same array object again for the same separation - it must come back unchanged); callables that are falsy
+        model["api_results"] = [None, "numpy0d", "numpy0d_int", "numpy0d_cached", "falsy_callable"][i % 5]
       model["api_extra_density_keys"] = (i % 3 == 0)
     huge = None
     if i % 8 == 3:
